@@ -29,7 +29,7 @@ Extraction "model.ml"
   Chess.is_ep_move Chess.is_castling_move Chess.is_double_step
   Game.g_start Game.g_play Game.insufficient Game.occurrences
   Search.movelist Search.mvvlva
-  SearchBoard.search_board SearchBoard.minimax_board SearchBoard.material SearchBoard.full_exploration SearchBoard.captures_only
+  SearchBoard.search_board SearchBoard.minimax_board SearchBoard.material SearchBoard.full_exploration SearchBoard.captures_only SearchBoard.checks_or_captures
   SearchBoard.f32_of_int
   TT.new_table TT.key Bits.nthN TT.tt_read TT.tt_write_ok TT.tt_used TT.tt_occupied TT.val TT.cstep TT.crun TT.c_init TT.c_occupied TT.c_quiescent
   Minimax.spec_mm Minimax.spec_qv Minimax.spec_material_int
